@@ -203,6 +203,8 @@ def make_builtins(I):
             return dict(v)
         if isinstance(v, SymDict):
             return SymDict(v.has, v.val, v.kty, v.vty, v.name)
+        if isinstance(v, KeyIter) and v.mode == "items":
+            return SymDict(v.has, v.val, v.kty, v.vty, "dict_of_items")
         items = concrete_iter(it, v)
         if items is not None:
             out = {}
@@ -222,8 +224,10 @@ def make_builtins(I):
             if any(is_symval(x) for x in items):
                 raise Unsupported("set of symbolic values")
             return set(items)
-        if isinstance(v, KeyIter):
+        if isinstance(v, KeyIter) and v.mode == "keys":
             return SymSet(v.has, v.kty)
+        if isinstance(v, KeyIter) and v.mode == "values":
+            return SymSet(image_set(it, v), v.vty)
         s = to_symseq(it, v)
         j = it.ctx.fresh("j", TInt)
         x = z3.Const(it.ctx.fresh_name("x"), s.ety.sort())
@@ -290,6 +294,10 @@ def make_builtins(I):
     @reg("sorted")
     def _sorted(it, a, k):
         v = a[0]
+        if isinstance(v, KeyIter) and not k:
+            # sorted(d.items()) / sorted(d): the same entries in sorted order; the model iterates a symbolic
+            # dict in EVERY order, which includes the sorted one
+            return v
         items = concrete_iter(it, v)
         if items is not None and not any(is_symval(x) for x in items) and not k:
             return sorted(items)
@@ -1033,6 +1041,20 @@ def get_method(it, obj, name):
             def f(it, a, k):
                 st.has = z3.Store(st.has, it.unwrap(a[0], st.kty), z3.BoolVal(False))
             return B(f)
+        if name == "intersection":
+            def f(it, a, k):
+                o = a[0]
+                if isinstance(o, KeyIter) and o.mode == "values":
+                    oh = image_set(it, o)
+                elif isinstance(o, KeyIter) and o.mode == "keys":
+                    oh = o.has
+                elif isinstance(o, SymSet):
+                    oh = o.has
+                else:
+                    raise Unsupported("intersection with non-symbolic iterable")
+                x = z3.Const(it.ctx.fresh_name("ix"), st.kty.sort())
+                return SymSet(z3.Lambda([x], z3.And(z3.Select(st.has, x), z3.Select(oh, x))), st.kty)
+            return B(f)
         raise Unsupported(f"set.{name} on symbolic set")
     if isinstance(obj, SymSeq):
         if name == "__getitem__":
@@ -1145,6 +1167,13 @@ def get_method(it, obj, name):
                 return getattr(obj, name)(*a)
             return B(f)
     return None
+
+
+def image_set(it, ki):
+    """membership array of {val[k] : k in keys}"""
+    v = z3.Const(it.ctx.fresh_name("img"), ki.vty.sort())
+    k = z3.Const(it.ctx.fresh_name("imk"), ki.kty.sort())
+    return z3.Lambda([v], z3.Exists([k], z3.And(z3.Select(ki.has, k), z3.Select(ki.val, k) == v)))
 
 
 def pop_arr(arr, i):
@@ -1661,8 +1690,6 @@ def comp_keyiter(it, e, env, kind, ki):
     if kind != "dict":
         raise Unsupported("non-dict comprehension over a symbolic dict view (needs a summary)")
     g0 = e.generators[0]
-    if g0.ifs:
-        raise Unsupported("filtered dict comprehension over a symbolic dict view")
     s = z3.Const(it.ctx.fresh_name("rk"), ki.kty.sort())
     env3 = Env(env)
     if ki.mode == "items":
@@ -1676,15 +1703,29 @@ def comp_keyiter(it, e, env, kind, ki):
     try:
         kv = it.eval_expr(e.key, env3)
         vv = it.eval_expr(e.value, env3)
+        conds = [it.truth(it.eval_expr(c, env3)) for c in g0.ifs]
     finally:
         it.term_mode -= 1
+    conds = [z3.BoolVal(c) if isinstance(c, bool) else c for c in conds]
+    if isinstance(kv, tuple):
+        kv = SV(it.unwrap(kv, it.type_of(kv)), it.type_of(kv))
     if not isinstance(kv, SV):
         raise Unsupported("re-keyed dict comprehension: key is not a symbolic scalar")
     kty2 = kv.ty
     vty2 = it.type_of(vv)
     vterm = it.unwrap(vv, vty2)
     k2 = z3.Const(it.ctx.fresh_name("rk2"), kty2.sort())
-    if z3.eq(kv.t, s):
+    def _is_identity():
+        if z3.eq(kv.t, s):
+            return True
+        if kv.ty != ki.kty:
+            return False
+        sl = z3.Solver()
+        sl.set("timeout", 2000)
+        sl.add(kv.t != s)
+        return sl.check() == z3.unsat  # e.g. a tuple rebuilt from its own components
+
+    if _is_identity():
         pre = k2
         ok = z3.BoolVal(True)
     else:
@@ -1696,7 +1737,8 @@ def comp_keyiter(it, e, env, kind, ki):
         extra = [kv.t.arg(i) for i in range(1, kv.t.num_args())]
         pre = inv(k2, *extra)
         ok = z3.substitute(kv.t, (s, pre)) == k2
-    has2 = z3.Lambda([k2], z3.And(z3.Select(ki.has, pre), ok))
+    keep = [z3.substitute(c, (s, pre)) for c in conds]
+    has2 = z3.Lambda([k2], z3.And(z3.Select(ki.has, pre), ok, *keep))
     val2 = z3.Lambda([k2], z3.substitute(vterm, (s, pre)))
     return SymDict(has2, val2, kty2, vty2, "rekeyed")
 
@@ -1766,6 +1808,8 @@ def havoc_cell(it, name, cell):
         cell.length = ctx.fresh(name + "_len", TInt)
         cell.arr = z3.Const(ctx.fresh_name(name + "_arr"), z3.ArraySort(z3.IntSort(), cell.ety.sort()))
         ctx.assume(cell.length >= 0)
+    elif isinstance(cell, SymSet):
+        cell.has = z3.Const(ctx.fresh_name(name + "_set"), z3.ArraySort(cell.kty.sort(), z3.BoolSort()))
     elif isinstance(cell, SymDict):
         cell.has = z3.Const(ctx.fresh_name(name + "_has"), z3.ArraySort(cell.kty.sort(), z3.BoolSort()))
         cell.val = z3.Const(ctx.fresh_name(name + "_val"), z3.ArraySort(cell.kty.sort(), cell.vty.sort()))
